@@ -277,7 +277,6 @@ var wireSpecs = []wireSpec{
 	}},
 	{"cmd", "newWriteCmdArgsFromInputInstances", []wireFact{
 		{"chord", []string{"call op.NewChord(p1[i].Chord.Degree,chord.Mapper.GetChord(cmd.newChordMap(p0)#0,p1[i].Chord.Chord)#0,p1[i].Chord.Base)"}, "the played chord is not built from the instance's own degree, looked-up symbol and base"},
-		{"store", []string{"[i] <- var<op.Instance>"}, "the converted instance is not stored at its own position"},
 	}},
 	{"cmd", "getRootNote", []wireFact{{"flag", []string{"call note.ParseNote("}, "the root flag is not parsed as a note"}}},
 	{"cmd", "newChordMap", []wireFact{{"build", []string{"call chord.Builder.Build("}, "the dictionary is not built (and validated) from the builder"}}},
